@@ -308,7 +308,7 @@ def singleIntervalV (s : DateSpec) (so : DateOffset) (e : DateSpec) (eo : DateOf
          | none => none
          | some stop => some (start, stop))
       | none =>
-        let y0 := year start
+        let y0 := yearBeforeOffset start eo
         some (start, (firstEndV e eo start [y0 - 1, y0, y0 + 1, y0 + 2]).getD dateEnd)
 
 theorem singleInterval_eq (s : DateSpec) (so : DateOffset) (e : DateSpec) (eo : DateOffset)
@@ -336,8 +336,8 @@ theorem singleInterval_eq (s : DateSpec) (so : DateOffset) (e : DateSpec) (eo : 
           simp only [eo.apply_eq heo e0 y1 y2, M.bind_ok, Option.map_some, M.pure_eq]
       | none =>
         simp only [firstEndFrom_eq e eo he heo, M.bind_ok]
-        cases firstEndV e eo (so.shiftC s0) [year (so.shiftC s0) - 1, year (so.shiftC s0), year (so.shiftC s0) + 1,
-          year (so.shiftC s0) + 2] <;> rfl
+        generalize firstEndV e eo (so.shiftC s0) _ = r
+        cases r <;> rfl
 
 /-- pure `singleDayFind` -/
 def singleDayV (m dd : Nat) (so eo : DateOffset) (d : Int) : List Int → Option (Int × Int)
@@ -389,24 +389,24 @@ def sdNext (d : Int) : Option (Int × Int) → Int
 /-- pure dated filter -/
 def datedFilterV (s : DateSpec) (so : DateOffset) (e : DateSpec) (eo : DateOffset) (d : Int) : Bool :=
   match singleDayOf s e with
-  | some (fy, m, dd) => sdRes d (singleDayV m dd so eo d (sdYears fy (year d) 1))
+  | some (fy, m, dd) => sdRes d (singleDayV m dd so eo d (sdYears fy (yearBeforeOffset d eo) 8))
   | none =>
     match singleIntervalV s so e eo with
     | some iv => iv.1 ≤ d && d ≤ iv.2
     | none =>
-      isOpenFromIntervals d (intervalsFromBounds ((yearsAround (year d) 2 2).filterMap (boundV s so true))
-        ((yearsAround (year d) 2 2).filterMap (boundV e eo false)))
+      isOpenFromIntervals d (intervalsFromBounds ((yearsAround (yearBeforeOffset d so) 2 2).filterMap (boundV s so true))
+        ((yearsAround (yearBeforeOffset d eo) 2 2).filterMap (boundV e eo false)))
 
 /-- pure dated hint -/
 def datedHintV (s : DateSpec) (so : DateOffset) (e : DateSpec) (eo : DateOffset) (d : Int) : Int :=
   match singleDayOf s e with
-  | some (fy, m, dd) => sdNext d (singleDayV m dd so eo d (sdYears fy (year d) 10))
+  | some (fy, m, dd) => sdNext d (singleDayV m dd so eo d (sdYears fy (yearBeforeOffset d eo) 10))
   | none =>
     match singleIntervalV s so e eo with
     | some iv => nextChangeFromIntervals d [iv]
     | none =>
-      nextChangeFromIntervals d (intervalsFromBounds ((yearsAround (year d) 2 10).filterMap (boundV s so true))
-        ((yearsAround (year d) 2 10).filterMap (boundV e eo false)))
+      nextChangeFromIntervals d (intervalsFromBounds ((yearsAround (yearBeforeOffset d so) 2 10).filterMap (boundV s so true))
+        ((yearsAround (yearBeforeOffset d eo) 2 10).filterMap (boundV e eo false)))
 
 theorem MonthdayRange.date_filter_eq (s : DateSpec) (so : DateOffset) (e : DateSpec) (eo : DateOffset)
     (hw : (MonthdayRange.date s so e eo).wf = true) (d : Int) :
@@ -419,13 +419,13 @@ theorem MonthdayRange.date_filter_eq (s : DateSpec) (so : DateOffset) (e : DateS
       match ← singleInterval s so e eo with
       | some iv => pure (decide (iv.1 ≤ d) && decide (d ≤ iv.2))
       | none =>
-        let starts ← boundsOn s so true (yearsAround (year d) 2 2)
-        let ends ← boundsOn e eo false (yearsAround (year d) 2 2)
+        let starts ← boundsOn s so true (yearsAround (yearBeforeOffset d so) 2 2)
+        let ends ← boundsOn e eo false (yearsAround (yearBeforeOffset d eo) 2 2)
         pure (isOpenFromIntervals d (intervalsFromBounds starts ends)) : M Bool) =
       .ok (match singleIntervalV s so e eo with
         | some iv => decide (iv.1 ≤ d) && decide (d ≤ iv.2)
-        | none => isOpenFromIntervals d (intervalsFromBounds ((yearsAround (year d) 2 2).filterMap (boundV s so true))
-          ((yearsAround (year d) 2 2).filterMap (boundV e eo false)))) := by
+        | none => isOpenFromIntervals d (intervalsFromBounds ((yearsAround (yearBeforeOffset d so) 2 2).filterMap (boundV s so true))
+          ((yearsAround (yearBeforeOffset d eo) 2 2).filterMap (boundV e eo false)))) := by
     intro s hs hsi
     simp only [hsi, M.bind_ok]
     cases singleIntervalV s so e eo with
@@ -456,13 +456,13 @@ theorem MonthdayRange.date_hint_eq (s : DateSpec) (so : DateOffset) (e : DateSpe
       match ← singleInterval s so e eo with
       | some iv => pure (some (nextChangeFromIntervals d [iv]))
       | none =>
-        let starts ← boundsOn s so true (yearsAround (year d) 2 10)
-        let ends ← boundsOn e eo false (yearsAround (year d) 2 10)
+        let starts ← boundsOn s so true (yearsAround (yearBeforeOffset d so) 2 10)
+        let ends ← boundsOn e eo false (yearsAround (yearBeforeOffset d eo) 2 10)
         pure (some (nextChangeFromIntervals d (intervalsFromBounds starts ends))) : M (Option Int)) =
       .ok (some (match singleIntervalV s so e eo with
         | some iv => nextChangeFromIntervals d [iv]
-        | none => nextChangeFromIntervals d (intervalsFromBounds ((yearsAround (year d) 2 10).filterMap (boundV s so true))
-          ((yearsAround (year d) 2 10).filterMap (boundV e eo false))))) := by
+        | none => nextChangeFromIntervals d (intervalsFromBounds ((yearsAround (yearBeforeOffset d so) 2 10).filterMap (boundV s so true))
+          ((yearsAround (yearBeforeOffset d eo) 2 10).filterMap (boundV e eo false))))) := by
     intro s hs hsi
     simp only [hsi, M.bind_ok]
     cases singleIntervalV s so e eo with
